@@ -427,7 +427,7 @@ def main(argv):
         for c in corr:
             for d in c.get("disagreements", []):
                 w = d.get("witness")
-                if not w or tried >= 6:
+                if not w or tried >= 12:
                     continue
                 tried += 1
                 pf = os.path.join(workdir, "witness-%d.json" % tried)
